@@ -411,6 +411,8 @@ func defaultsAndPlaceholders(res *vkit.Result, c comp, rng *rand.Rand, propFile 
 			case 1:
 				envSeq++
 				key := fmt.Sprintf("key%d", envSeq)
+				// decoys first: the key as the tail of a longer key and inside another value
+				*props = append(*props, "x"+key+"=DECOY-LONGER-KEY", fmt.Sprintf("url%d=http://h/?%s=DECOY-IN-VALUE", envSeq, key))
 				*props = append(*props, key+"="+f.Text)
 				_ = os.WriteFile(propFile, []byte(strings.Join(*props, "\n")+"\n"), 0o644)
 				val = "${property:" + propFile + "#" + key + "}"
@@ -548,6 +550,9 @@ func wrongAndBad(res *vkit.Result, c comp, propFile string) {
 			"missing file":  "${property:/c17/no/such/file.properties#k}",
 			"missing key":   "${property:" + propFile + "#no_such_key}",
 			"no key at all": "${property:" + propFile + "}",
+			// the file has oauth_token=… and endpoint=…?region=eu but neither token nor region
+			"key is only the tail of a longer key": "${property:" + propFile + "#token}",
+			"key occurs only inside a value":       "${property:" + propFile + "#region}",
 		}
 		for kind, ph := range bads {
 			section := clone(c.Base).(map[string]any)
@@ -972,7 +977,7 @@ func main() {
 	}
 	defer os.RemoveAll(aux)
 	propFile := filepath.Join(aux, "verif.properties")
-	props := []string{"# properties", "unrelated=1"}
+	props := []string{"# properties", "unrelated=1", "oauth_token=s3cr3t", "endpoint=https://api.example/?region=eu&x=1"}
 	_ = os.WriteFile(propFile, []byte(strings.Join(props, "\n")+"\n"), 0o644)
 	for _, f := range []string{"/c17/ammo.uri", "/c17/ammo.raw", "/c17/ammo.uripost", "/c17/ammo.grpc"} {
 		_ = vkit.WriteMemAt(f, []byte(""))
